@@ -74,6 +74,8 @@
 #include <valarray>
 #include <complex>
 #include <codecvt>
+#include <fcntl.h>
+#include <unistd.h>
 
 #define private public
 #define protected public
@@ -171,8 +173,12 @@ std::string show(const i_de &x)
 int main()
 {
   log::reporting_level = log::lOFF;
-  std::string line;
-  while (std::getline(std::cin, line))
+  // all cases are read before the first one runs: the evolution loop of `garun` polls the keyboard through
+  // stdio (term::user_stop -> getchar), which would otherwise eat the beginning of the following case
+  std::vector<std::string> all_lines;
+  for (std::string l; std::getline(std::cin, l);)
+    all_lines.push_back(l);
+  for (const std::string &line : all_lines)
   {
     const auto w(split(line));
     if (w.size() < 3) { std::cout << "BADLINE" << std::endl; continue; }
@@ -265,6 +271,68 @@ int main()
           res = show(x) + (x.is_valid() ? "" : " INVALID");
         }
         std::cout << res << " |" << draws << std::endl;
+      }
+      else if (c == "garun")
+      {
+        // in situ: the operators as evolution_recombination.tcc / ga_search use them.
+        // garun <seed> <gens> <pop> <pcross> <pmut> <n> lo hi ...  -> OK <individuals seen> <draws> | BAD ...
+        const unsigned gens(std::stoul(next())), pop(std::stoul(next()));
+        const double pc(dbl(next())), pm(dbl(next()));
+        const std::size_t n(std::stoul(next()));
+        std::vector<range_t<int>> rg;
+        for (std::size_t i(0); i < n; ++i) { const int lo(std::stoi(next())); const int hi(std::stoi(next())); rg.push_back({lo, hi}); }
+        ga_problem prob(rg);
+        prob.env.individuals = pop;
+        prob.env.generations = gens;
+        prob.env.p_cross = pc;
+        prob.env.p_mutation = pm;
+        auto f = [](const i_ga &x) -> fitness_t
+        {
+          double s(0);
+          for (auto v : x) s += std::fabs(static_cast<double>(v));
+          return {-s};
+        };
+        std::string bad;
+        unsigned long seen(0), ndraws(0);
+        static unsigned long *pd;
+        pd = &ndraws;
+        ga_search<decltype(f)> s(prob, f);
+        s.after_generation([&](const population<i_ga> &p, const summary<i_ga> &sm)
+        {
+          for (unsigned l(0); l < p.layers(); ++l)
+            for (unsigned i(0); i < p.individuals(l); ++i)
+            {
+              const i_ga &x(p[{l, i}]);
+              ++seen;
+              if (!bad.empty()) continue;
+              if (x.parameters() != n)
+                bad = "gen " + std::to_string(sm.gen) + " individual " + std::to_string(i) + " has " + std::to_string(x.parameters()) + " genes";
+              else
+                for (std::size_t k(0); k < n; ++k)
+                  if (x[k] < rg[k].first || x[k] >= rg[k].second)
+                  {
+                    bad = "gen " + std::to_string(sm.gen) + " individual " + std::to_string(i) + " gene " + std::to_string(k) + " = " + std::to_string(x[k]);
+                    break;
+                  }
+            }
+        });
+        random::verif::draw_sink = [](char, long double, long double, long double) { ++*pd; };
+        {
+          // the evolution loop polls the keyboard (term::user_stop reads file descriptor 0): keep it away from
+          // the case stream
+          const int saved(dup(0));
+          const int nul(open("/dev/null", O_RDONLY));
+          dup2(nul, 0);
+          s.run(1);
+          dup2(saved, 0);
+          close(nul);
+          close(saved);
+        }
+        random::verif::draw_sink = nullptr;
+        if (bad.empty())
+          std::cout << "OK " << seen << " " << ndraws << std::endl;
+        else
+          std::cout << "BAD " << bad << std::endl;
       }
       else
         std::cout << "BADLINE" << std::endl;
